@@ -120,7 +120,7 @@ def r1(ctx: Ctx, rid: str) -> None:
              "the temp file in dirname(final), and rename exactly that temp onto the resolved final path", 14)
     for f, n, what in write_sinks(ctx):
         owners = owner_tops(ctx, f)
-        reasons = [SINK_OWNERS.get(o.qname) for o in owners]
+        reasons = [SINK_OWNERS.get(ctx.prog.anchor(o)) for o in owners]
         reason = reasons[0] if owners and all(r is not None for r in reasons) else None
         ctx.ob(rid, f, f"{what} site", n, reason is not None,
                (f"sanctioned: {reason}" if reason else
@@ -202,7 +202,7 @@ def r2(ctx: Ctx, rid: str) -> None:
     ctx.rule(rid, "one commit point, and it is last: the version hint is written by exactly two functions; in each the "
              "metadata-file write dominates the pointer write; manifests -> manifest list -> snapshot commit is "
              "the only order in _commit_file_ops", 6)
-    writers = {o.qname for w in hint_writers(ctx) for o in (owner_tops(ctx, w) or [w])}
+    writers = {ctx.prog.anchor(o) for w in hint_writers(ctx) for o in (owner_tops(ctx, w) or [w])}
     expected = {"datashard.metadata_manager.MetadataManager.initialize_table",
                 "datashard.metadata_manager.MetadataManager._write_hint_at_commit_point"}
     ctx.ob(rid, None, "hint writer census", None, writers == expected,
